@@ -59,7 +59,17 @@ def prepare(seed, tier, env, log):
     if failures:
         raise BuildError("pilota-build failed on " + "; ".join(f"{n}: {m}" for n, m in failures))
     import gendispatch
-    gendispatch.write(GEN_DIR, emitted)
+    # the wire type of a value of each typedef / enum newtype (the harness reads a decoded value's binary re-encoding back by it
+    # and shows the canonical tree; decided from the IDL, not by what the bytes happen to parse as)
+    wire_tt = {}
+    for d in docs:
+        items = idlgen.all_items(d)
+        for it in items.values():
+            if it["kind"] in ("typedef", "enum"):
+                tt = idlgen.ttype(items, ("ref", it["name"]))
+                for vn in (d["name"], d["name"] + "k"):
+                    wire_tt[(vn, it["name"])] = tt
+    gendispatch.write(GEN_DIR, emitted, wire_tt)
     e = dict(env, GEN_DIR=GEN_DIR)
     p = subprocess.run(["cargo", "build", "--offline", "-p", "genrun"], cwd=HARNESS, env=e, stdout=subprocess.PIPE, stderr=subprocess.STDOUT, text=True, timeout=3000)
     log.append(("cargo genrun", p.returncode, "\n".join(l for l in p.stdout.splitlines() if l.startswith("error"))[:600]))
